@@ -28,6 +28,17 @@ RPC_TIMEOUT_S = 60.0
 # ------------------------------------------------------------ template side
 
 
+def _leave(code: int) -> None:
+    """End of a node: whatever it started ends with it."""
+    try:
+        if os.getpid() == os.getpgrp():
+            signal.signal(signal.SIGTERM, signal.SIG_IGN)
+            os.killpg(0, signal.SIGTERM)
+    except OSError:
+        pass
+    os._exit(code)
+
+
 def _template_main(lsock, ctl_r, repo_src: str, flavour: str) -> None:
     try:
         os.environ.setdefault("OMP_NUM_THREADS", "1")
@@ -46,32 +57,64 @@ def _template_main(lsock, ctl_r, repo_src: str, flavour: str) -> None:
         from . import shims as _shims  # noqa: PLC0415
 
         _uuid.uuid4 = _shims.sim_uuid4
-        import soundevent  # noqa: PLC0415,F401
-        import soundevent.data  # noqa: PLC0415,F401
-        import soundevent.io  # noqa: PLC0415,F401
+        _shims.install_time()
+        import importlib  # noqa: PLC0415
+        import pkgutil  # noqa: PLC0415
+
+        def import_library():
+            """soundevent and every submodule of it: the seams are attached
+            to module globals, and a module the library imports lazily, on
+            first use, must already be there when they are."""
+            soundevent = importlib.import_module("soundevent")
+            importlib.import_module("soundevent.data")
+            importlib.import_module("soundevent.io")
+            if flavour == "audio":
+                importlib.import_module("soundevent.audio")
+            names = []
+            try:
+                # (walk_packages imports each package itself to descend)
+                for info in pkgutil.walk_packages(
+                    soundevent.__path__, "soundevent.",
+                    onerror=lambda name: None,
+                ):
+                    names.append(info.name)
+            except BaseException:  # noqa: BLE001  (a package that exits)
+                pass
+            for name in names:
+                if flavour != "audio" and name.startswith(
+                    ("soundevent.audio", "soundevent.plot")
+                ) or name.rsplit(".", 1)[-1] == "__main__":
+                    continue
+                try:
+                    importlib.import_module(name)
+                except BaseException:  # noqa: BLE001  (optional dependency
+                    pass               # missing, a script that exits on import)
+            return soundevent
+
+        # Twice. The first import brings in every third-party package the
+        # library needs, untouched. The library's own modules are then
+        # dropped and imported again while `datetime.datetime` in the datetime
+        # module is the simulated class: a `Field(default_factory=
+        # datetime.datetime.now)` captures its method when the class is
+        # defined, and has to capture the simulated one.
+        import_library()
+        for name in [m for m in sys.modules
+                     if m == "soundevent" or m.startswith("soundevent.")]:
+            del sys.modules[name]
+        import datetime as _datetime  # noqa: PLC0415
+
+        real_datetime = _datetime.datetime
+        _datetime.datetime = _shims.SimDateTime
+        try:
+            soundevent = import_library()
+        finally:
+            _datetime.datetime = real_datetime
 
         origin = os.path.dirname(os.path.abspath(soundevent.__file__))
         if not origin.startswith(os.path.abspath(repo_src)):
             raise RuntimeError(
                 f"soundevent imported from {origin}, expected {repo_src}"
             )
-        if flavour == "audio":
-            import soundevent.audio  # noqa: PLC0415,F401
-        # every submodule now: the seams are attached to module globals, and
-        # a module the library imports lazily, on first use, must already be
-        # there when they are
-        import importlib  # noqa: PLC0415
-        import pkgutil  # noqa: PLC0415
-
-        for info in pkgutil.walk_packages(soundevent.__path__, "soundevent."):
-            if flavour != "audio" and info.name.startswith(
-                ("soundevent.audio", "soundevent.plot")
-            ) or info.name.rsplit(".", 1)[-1] == "__main__":
-                continue
-            try:
-                importlib.import_module(info.name)
-            except BaseException:  # noqa: BLE001  (optional dependency
-                pass               # missing, a script that exits on import)
         from . import nodeside, shims  # noqa: PLC0415
 
         installed = shims.install(aoef=True, audio=(flavour == "audio"))
@@ -99,6 +142,7 @@ def _template_main(lsock, ctl_r, repo_src: str, flavour: str) -> None:
                 # waited for normally, and what the library prints or logs
                 # goes nowhere (never into a pipe that could fill up)
                 signal.signal(signal.SIGCHLD, signal.SIG_DFL)
+                os.setpgrp()  # helper processes of the library die with it
                 devnull = os.open(os.devnull, os.O_RDWR)
                 for fd in (0, 1, 2):
                     os.dup2(devnull, fd)
@@ -106,8 +150,8 @@ def _template_main(lsock, ctl_r, repo_src: str, flavour: str) -> None:
                 nodeside.serve(conn)
             except BaseException:  # noqa: BLE001
                 traceback.print_exc()
-                os._exit(4)
-            os._exit(0)
+                _leave(4)
+            _leave(0)
         conn.close()
 
 
